@@ -1,0 +1,7 @@
+//go:build !verif
+
+package srgb
+
+// verifAt marks a point of lazy table construction for the verification
+// harness in /verif; without the verif build tag it is empty and inlined away.
+func verifAt(string) {}
